@@ -77,6 +77,18 @@ static bool names_eq(char const *a, char const *b, char const *c, char const *d,
 #define PAIR_OK(parsed) ((parsed)[g_ci].type == close_tag ==> \
      (/* a processed closing tag keeps its type only if it found its partner */ (parsed)[g_ci].tag.pair >= 0 && (unsigned)(parsed)[g_ci].tag.pair < g_ci && (parsed)[(parsed)[g_ci].tag.pair].tag.pair == (int)g_ci && g_obs_armed && g_obs_open == (unsigned)(parsed)[g_ci].tag.pair))
 '''
+
+PRE += r'''
+/* ---- attribute values: validate_property_value / ends_with.  g_vb is the first byte of the value, g_vn its length; facts are stated at the relative ghost index g_vi, never through the walking pointer */
+char const *g_vb; size_t g_vn, g_vi;
+#define LITLEN(v) (!(v)[0] ? 0 : !(v)[1] ? 1 : !(v)[2] ? 2 : !(v)[3] ? 3 : !(v)[4] ? 4 : !(v)[5] ? 5 : 6)
+#define M3(j,a,b,c) ((j) + 3 <= g_vn && g_vb[(j)] == (a) && g_vb[(j)+1] == (b) && g_vb[(j)+2] == (c))
+#define M4(j,a,b,c,d) ((j) + 4 <= g_vn && g_vb[(j)] == (a) && g_vb[(j)+1] == (b) && g_vb[(j)+2] == (c) && g_vb[(j)+3] == (d))
+#define M5(j,a,b,c,d,e) ((j) + 5 <= g_vn && g_vb[(j)] == (a) && g_vb[(j)+1] == (b) && g_vb[(j)+2] == (c) && g_vb[(j)+3] == (d) && g_vb[(j)+4] == (e))
+/* the entity names an attribute value may contain: &amp; &lt; &gt; &quot; &apos; &#x27; &#X27; &#39; */
+#define ENT_AT(j) (M4(j,'a','m','p',';') || M3(j,'l','t',';') || M3(j,'g','t',';') || M5(j,'q','u','o','t',';') || M5(j,'a','p','o','s',';') || M5(j,'#','x','2','7',';') || M5(j,'#','X','2','7',';') || M4(j,'#','3','9',';'))
+#define VCH_OK(i) (g_vb[(i)] != '<' && g_vb[(i)] != '>' && (g_vb[(i)] == '&' ==> ENT_AT((i) + 1)))
+'''
 functions = [
     dict(cname='ascii_isalpha', file=X, locate=lit('bool ascii_isalpha(char c)'), sig='bool ascii_isalpha(char c)',
          contract="__CPROVER_assigns()\n__CPROVER_ensures(__CPROVER_return_value == (('a' <= c && c <= 'z') || ('A' <= c && c <= 'Z') || c == '_'))"),
@@ -87,6 +99,29 @@ functions = [
     dict(cname='ascii_isspace', file=X, locate=lit('bool ascii_isspace(char c)'), sig='bool ascii_isspace(char c)',
          contract="__CPROVER_assigns()\n__CPROVER_ensures(__CPROVER_return_value == (c == ' ' || c == '\\r' || c == '\\n' || c == '\\t'))"),
     # ---------------- tokeniser
+    dict(cname='xss_ends_with', file=X, locate=lit('bool ends_with(char const *&begin,char const *end,char const *value)'),
+         sig='bool xss_ends_with(char const **begin, char const *end, char const *value)', refs=['begin'], rename={'strlen': 'lit_strlen', 'memcmp': 'lit_memcmp'},
+         contract=r'''
+__CPROVER_requires(__CPROVER_rw_ok(begin, sizeof(*begin)) && SAME(*begin, end) && OFF(*begin) <= OFF(end) && OFF(end) <= BUF_CAP && __CPROVER_r_ok(*begin, OFF(end) - OFF(*begin)) && __CPROVER_r_ok(value, 1) && __CPROVER_r_ok(value, LITLEN(value) + 1) && LITLEN(value) <= 5)
+__CPROVER_assigns(*begin)
+/* true: the bytes at the cursor are exactly the literal, and the cursor moved past them; false: the cursor did not move */
+__CPROVER_ensures(__CPROVER_return_value ==> (*begin == __CPROVER_old(*begin) + LITLEN(value) && LITLEN(value) <= OFF(end) - OFF(__CPROVER_old(*begin)) &&
+                  (LITLEN(value) > 0 ==> __CPROVER_old(*begin)[0] == value[0]) && (LITLEN(value) > 1 ==> __CPROVER_old(*begin)[1] == value[1]) && (LITLEN(value) > 2 ==> __CPROVER_old(*begin)[2] == value[2]) &&
+                  (LITLEN(value) > 3 ==> __CPROVER_old(*begin)[3] == value[3]) && (LITLEN(value) > 4 ==> __CPROVER_old(*begin)[4] == value[4])))
+__CPROVER_ensures(!__CPROVER_return_value ==> *begin == __CPROVER_old(*begin))
+'''),
+    dict(cname='xss_validate_property_value', file=X, locate=lit('bool validate_property_value(char const *begin,char const *end)'),
+         sig='bool xss_validate_property_value(char const *begin, char const *end)', rename={'ends_with': 'xss_ends_with'},
+         loops={0: r'''
+__CPROVER_assigns(begin)
+__CPROVER_loop_invariant(SAME(begin, g_vb) && OFF(begin) >= OFF(g_vb) && OFF(begin) <= OFF(end) && (g_vi < OFF(begin) - OFF(g_vb) ==> VCH_OK(g_vi)))
+__CPROVER_decreases(OFF(end) - OFF(begin))'''},
+         contract=r'''
+__CPROVER_requires(VALID_RANGE(begin, end) && begin == g_vb && g_vn == OFF(end) - OFF(begin) && g_vn <= BUF_CAP)
+__CPROVER_assigns()
+/* C04: an accepted attribute value contains no < and no >, and every & in it starts one of the eight white-listed entities that lies entirely inside the value (arbitrary ghost index) */
+__CPROVER_ensures(__CPROVER_return_value ==> (g_vi < g_vn ==> VCH_OK(g_vi)))
+'''),
     dict(cname='xss_split_to_parts', file=X, locate=lit('void split_to_parts(char const *begin,char const *end,std::vector<entry> &tags)'),
          sig='void xss_split_to_parts(char const *begin, char const *end)',
          rewrites=[(r'tags\.push_back\(entry\(', 'tags_push((', 9), (r'tags\.clear\(\);', 'tags_clear();', 1), (r'tags\.reserve\(count\);', 'tags_reserve(count);', 1)],
@@ -154,6 +189,13 @@ jobs = [
     dict(name='ascii_isdigit', props=P, enforce='ascii_isdigit', harness='char c; ascii_isdigit(c); VERIF_REACH;'),
     dict(name='ascii_isalnum', props=P, enforce='ascii_isalnum', replace=['ascii_isdigit'], harness='char c; ascii_isalnum(c); VERIF_REACH;'),
     dict(name='ascii_isspace', props=P, enforce='ascii_isspace', harness='char c; ascii_isspace(c); VERIF_REACH;'),
+    dict(name='xss_ends_with', props=P, enforce='xss_ends_with', harness=r'''
+    SYM_BUF(char, b, n, BUF_CAP); size_t off; __CPROVER_assume(off <= n); char const *cur = b + off; int w;
+    char const *lit = w == 0 ? "amp;" : w == 1 ? "lt;" : w == 2 ? "gt;" : w == 3 ? "quot;" : w == 4 ? "apos;" : w == 5 ? "#x27;" : w == 6 ? "#X27;" : "#39;";
+    xss_ends_with(&cur, b + n, lit); VERIF_REACH;'''),
+    dict(name='xss_validate_property_value', props=P, enforce='xss_validate_property_value', replace=['xss_ends_with'], timeout=900, object_bits=12, cbmc_flags=['--external-sat-solver', 'kissat'], harness=r'''
+    SYM_BUF(char, b, n, BUF_CAP); size_t k; g_vi = k; g_vb = b; g_vn = n;
+    xss_validate_property_value(b, b + n); VERIF_REACH;'''),
     dict(name='xss_split_to_parts', props=P, kind='plainloops', per_property=r'^xss_split_to_parts\.|^tags_push\.assertion', pp_chunk=16, pp_workers=14, timeout=300, cost=10,
          complete_note='all 7 loops closed by loop contracts (goto-instrument --apply-loop-contracts); obligations are solved in chunks of 16 per cbmc process (solving them all in one process does not finish)',
          harness=r"""
